@@ -61,6 +61,16 @@ REQUIRED_CLASSES = [
     'supp_data:w100:d1', 'supp_data:w100:d2', 'supp_data:w100:d3', 'supp_data:w100:d4',
     'supp_data:comment_before', 'supp_data:comment_between', 'supp_data:comment_inside_entry',
     'supp_txt:commented_out_entry',
+    # supp_data that is itself a thermdat text (own THERMO header, temperature line, END) and
+    # supp_data entries whose names start with END / THERMO in any letter case
+    'supp_data:full_thermdat', 'supp_data:handmade_sections', 'supp_data:interior_END',
+    'supp_data:interior_THERMO', 'supp_data:interior_temperature_line', 'supp_data:entries_after_interior_END',
+    'supp_data:full_thermdat:date:on', 'supp_data:full_thermdat:date:off',
+    'supp_name:starts_END:upper:nonfirst', 'supp_name:starts_END:othercase:nonfirst',
+    'supp_name:starts_THERMO:upper:nonfirst', 'supp_name:starts_THERMO:othercase:nonfirst',
+    'supp_name:starts_END:upper:first', 'supp_name:starts_END:othercase:first',
+    'supp_name:starts_THERMO:upper:first', 'supp_name:starts_THERMO:othercase:first',
+    'supp_name:plain:nonfirst',
     'name:starts_keyword', 'name:contains_keyword', 'name:equals_keyword', 'name:lowercase_keyword',
     'name:starts_REAC',
     'name:plain', 'name:contains_END', 'name:starts_END', 'name:contains_THERMO', 'name:starts_THERMO',
@@ -109,6 +119,15 @@ ASSUMPTIONS = [
     'exact rounding bound of the format; observed maxima are reported)',
     'supplementary entries are produced by an independent formatter in the same fixed-column layout and must '
     'be read back in front of the written species',
+    'supplementary data may itself be a complete thermdat text - what write_thermdat(filename=None) returns for '
+    'other species, or entries from the independent formatter between a THERMO [ALL] line (+ temperature line) and '
+    'an END line - so THERMO / temperature / END lines sit in front of later entries; such section lines are not '
+    'entries: every entry of the supplementary data and every species is read back exactly once, in file order.  '
+    'For the layout oracle the interior section lines are removed before the independent parser sees the text '
+    '(a writer may keep or drop them; the entries are what is asserted)',
+    'names of supplementary entries: SUPPn... or END / THERMO in any letter case followed by 0-12 further '
+    'characters (ENDO, endo-C10H12, Thermo1, end ...), never exactly END or THERMO in upper case, unique in the file, '
+    'in first and in later positions of the block',
     'notes / date text is not part of the identity that is asserted (telemetry only)',
     'histories (oracle H): a file that was not changed reads back identically (field by field, bit for bit) no '
     'matter what the program did to the objects returned by an earlier read, which format= is used, or how the '
@@ -445,13 +464,43 @@ def gen_species(rng, name, allow_s2d3=False, allow_float=False):
             'a_low': gen_coefs(rng, style), 'a_high': gen_coefs(rng, style2), 'notes': gen_notes(rng)}
 
 
-def gen_supp(rng, k):
+SUPP_PREFIX = ['END', 'END', 'end', 'End', 'eND', 'endo-', 'THERMO', 'THERMO', 'thermo', 'Thermo', 'THERMo']
+SUPP_TAILS = ['O', '1', '2', 'o-C10H12', '(S)', '*', '-2', 'S', 'X2', '', 'C10H12', '_a']
+
+
+def gen_supp_name(rng, k, used, keyword):
+    for attempt in range(50):
+        if keyword:
+            nm = rng.choice(SUPP_PREFIX) + (rng.choice(SUPP_TAILS) if rng.random() < 0.6 else _tail(rng, 1, 6))
+        else:
+            nm = 'SUPP%d%s' % (k, rng.choice(['', '(S)', '*', '-X']))
+        nm = nm[:15]
+        if _valid_name(nm) and nm not in used:
+            break
+    else:
+        nm = 'SUPQ%d' % k
+        while nm in used:
+            nm += 'q'
+    used.add(nm)
+    return nm
+
+
+def supp_name_class(name):
+    up = name.upper()
+    for kw in ('END', 'THERMO'):
+        if up.startswith(kw):
+            return 'starts_%s:%s' % (kw, 'upper' if name.startswith(kw) else 'othercase')
+    return 'plain'
+
+
+def gen_supp(rng, k, name=None):
     T = [round(t, 2) for t in gs.gen_breaks(rng, 2, 50.0, 6000.0, 20.0)]
     els = []
     for sym in rng.sample(['H', 'C', 'O', 'N', 'AR', 'Pt', 'Ni'], rng.randint(1, 4)):
         els.append([sym, rng.choice([1, 2, 9, 10, 12, 99])])
     rnd9 = lambda v: float('%.8E' % v)
-    return {'name': 'SUPP%d%s' % (k, rng.choice(['', '(S)', '*', '-X'])), 'elements': els,
+    default = 'SUPP%d%s' % (k, rng.choice(['', '(S)', '*', '-X']))
+    return {'name': name if name is not None else default, 'elements': els,
             'phase': rng.choice(['G', 'S', 'L']), 'T_low': T[0], 'T_mid': T[1], 'T_high': T[2],
             'a_low': [rnd9(v) for v in gs.gen_nasa7_coeffs(rng, style='realistic')],
             'a_high': [rnd9(v) for v in gs.gen_nasa7_coeffs(rng, style='realistic')],
@@ -544,8 +593,22 @@ def generate(rng, tier):
             'output': rng.choice(['file', 'string']),
             'write_date': rng.random() < 0.4,
             'supp_txt': (rng.choice(SUPP_TXT) if rng.random() < 0.3 else None),
-            'supp': ([gen_supp(rng, i) for i in range(rng.randint(1, 3))] if rng.random() < 0.2 else None),
+            'supp': None,
             'species': [gen_species(rng, nm, allow_s2d3, allow_float) for nm in names]}
+    if rng.random() < 0.2:
+        p_skw = rng.choice([0.0, 0.0, 0.5, 1.0])
+        spec['supp'] = [gen_supp(rng, i, gen_supp_name(rng, i, used, rng.random() < p_skw))
+                        for i in range(rng.randint(1, 4))]
+        if rng.random() < 0.3:
+            hd = rng.choice(['THERMO ALL', 'THERMO ALL', 'THERMO', None])
+            spec['supp_wrap'] = {'header': hd, 'temps': ([300.0, 1000.0, 5000.0] if hd == 'THERMO ALL' else None),
+                                 'end': hd is None or rng.random() < 0.8}
+    if rng.random() < (0.35 if spec['supp'] else 0.06):
+        # supplementary data that is what pMuTT returns for other species (header, temperatures, END)
+        p_skw = rng.choice([0.0, 0.5, 1.0])
+        fnames = [gen_supp_name(rng, 10 + i, used, rng.random() < p_skw) for i in range(rng.randint(1, 4))]
+        spec['supp_full'] = {'species': [gen_species(rng, nm, False, False) for nm in fnames],
+                             'write_date': rng.random() < 0.4, 'position': rng.choice(['before', 'before', 'after'])}
     if spec['supp'] and rng.random() < 0.4:
         spec['supp_newline'] = False         # the writer has to terminate the block itself
     if spec['supp_txt'] is not None and rng.random() < 0.4:
@@ -722,6 +785,33 @@ def directed(tier):
     D.append(F([gen_species(rng, nm) for nm in names], read_format='tuple',
                supp=[dict(gen_supp(rng, 0))], supp_txt='! forty species'))
     D[-1]['supp_newline'] = False
+    # supplementary data that is itself a thermdat text (pMuTT's own output for other species: header,
+    # temperature line, END) and hand-made blocks between THERMO ... END; keyword-prefixed entry names
+    rng = random.Random('C05:directed:supp_full')
+    NH3 = S('NH3', [('N', 1), ('H', 3)])
+    fsp = lambda names: [dict(gen_species(rng, nm), notes=None) for nm in names]
+    D.append(F([CH4, NH3, S('ENDO', [('C', 5), ('H', 8)])]))
+    D[-1]['supp_full'] = {'species': [H2O, S('CO2', [('C', 1), ('O', 2)])], 'write_date': False, 'position': 'before'}
+    kwn = ['C5H6', 'endo-C10H12', 'ENDO2', 'Thermo1', 'THERMOX', 'end', 'thermo', 'C2H4', 'End(S)', 'THERMo*']
+    D.append(F([CH4, NH3], supp=[gen_supp(rng, i, nm) for i, nm in enumerate(kwn)]))
+    for i, first in enumerate(['END1', 'endo', 'THERMO-a', 'Thermo2']):
+        D.append(F([CH4, OK], supp=[gen_supp(rng, 0, first), gen_supp(rng, 1, 'SUPP1'), gen_supp(rng, 2, kwn[i + 1])],
+                   read_format=('list', 'tuple', 'dict', 'list')[i], output=('file', 'string')[i % 2],
+                   write_date=bool(i % 2)))
+    for i, (hd, end, pos) in enumerate([('THERMO ALL', True, 'before'), ('THERMO', True, 'after'),
+                                        (None, True, 'before'), ('THERMO ALL', False, 'after')]):
+        D.append(F([CH4, S('END3', [('H', 3)]), OK], supp=[gen_supp(rng, 0, 'SUPP0'), gen_supp(rng, 1, kwn[1 + i])],
+                   read_format=('list', 'tuple', 'dict', 'list')[i], output=('file', 'string')[i % 2],
+                   input=('list', 'dict')[i % 2], write_date=bool(i % 2), supp_txt=(None, SUPP_TXT[3])[i % 2]))
+        D[-1]['supp_wrap'] = {'header': hd, 'temps': [300.0, 1000.0, 5000.0] if hd == 'THERMO ALL' else None,
+                              'end': end}
+        D[-1]['supp_full'] = {'species': fsp(['F%d' % i, ('ENDO-F', 'thermoF', 'Endf', 'THERMOF')[i], 'G%d' % i]),
+                              'write_date': bool(i // 2), 'position': pos}
+        if i == 2:
+            D[-1]['supp_newline'] = False
+    D.append(F([CH4], supp_txt='! after the supplementary file', read_format='dict'))
+    D[-1]['supp_full'] = {'species': fsp(['ONLY']), 'write_date': True, 'position': 'after'}
+    D[-1]['supp_newline'] = False
     # telemetry only (no oracle): non-ASCII names on disk; the ordinary checks run on the ASCII species
     D.append(F([CH4, OK]))
     D[-1]['telemetry'] = 'non_ascii_names'
@@ -844,6 +934,91 @@ def supp_text(supp, newline=True, comments=None):
     return txt if newline else txt.rstrip('\n')
 
 
+SUPP_KEYS = ('supp', 'supp_comments', 'supp_full', 'supp_wrap', 'supp_newline')
+
+
+def supp_block(spec):
+    """The supp_data string of a file spec and what it holds, in file order:
+    (text or None, expected values per entry, part label per entry, species spec per entry or None).
+      supp       entries from the independent formatter (optionally with comment lines)
+      supp_wrap  ... placed between a THERMO [ALL] line (+ temperature line) and an END line
+      supp_full  the text the real write_thermdat(filename=None) returns for other species, with its
+                 own header, temperature line and END, before or after the formatter entries"""
+    supp = spec.get('supp') or []
+    full = spec.get('supp_full')
+    wrap = spec.get('supp_wrap')
+    if not supp and not full:
+        return None, [], [], []
+    txt, exp, parts, sps = '', [], [], []
+    if supp:
+        txt = supp_text(supp, True, spec.get('supp_comments'))
+        if wrap:
+            head = ''
+            if wrap.get('header'):
+                head = wrap['header'] + '\n'
+                if wrap.get('temps'):
+                    head += ''.join('%10.3f' % t for t in wrap['temps']) + '\n'
+            txt = head + txt + ('END\n' if wrap.get('end') else '')
+        exp = [expected_of_supp(s) for s in supp]
+        parts = ['supp'] * len(supp)
+        sps = [None] * len(supp)
+    if full:
+        from pmutt.io.thermdat import write_thermdat
+        try:
+            ftxt = write_thermdat([build_sp(s) for s in full['species']], filename=None,
+                                  write_date=full['write_date'])
+        except core.HarnessError:
+            raise
+        except Exception as e:
+            raise core.HarnessError('could not produce the supplementary thermdat text: %r' % e)
+        if not isinstance(ftxt, str):
+            raise core.HarnessError('write_thermdat(filename=None) did not return text')
+        if not ftxt.endswith('\n'):
+            ftxt += '\n'
+        fexp = [expected_of(s) for s in full['species']]
+        fparts = ['supp_full'] * len(fexp)
+        if full.get('position', 'before') == 'before':
+            txt, exp, parts, sps = ftxt + txt, fexp + exp, fparts + parts, list(full['species']) + sps
+        else:
+            txt, exp, parts, sps = txt + ftxt, exp + fexp, parts + fparts, sps + list(full['species'])
+    if not spec.get('supp_newline', True):
+        txt = txt.rstrip('\n')
+    return txt, exp, parts, sps
+
+
+def _is_record_line(ln):
+    return len(ln) >= 80 and ln[79] in '1234'
+
+
+def _three_numbers(ln):
+    f = ln.split()
+    return len(f) == 3 and all(_is_numeric(x) for x in f)
+
+
+def strip_sections(text):
+    """Remove the section lines (THERMO ..., three-number temperature line, END) that lie between
+    the file's own header and its last END line, i.e. those brought in by supplementary data that
+    is itself a thermdat text.  Record lines (80+ columns, 1-4 in column 80) and comment lines are
+    never touched.  Returns (text, {'END': n, 'THERMO': n, 'temps': n})."""
+    lines = text.split('\n')
+    cnt = {'END': 0, 'THERMO': 0, 'temps': 0}
+    last_end = max([i for i, ln in enumerate(lines) if ln.strip() == 'END' and not _is_record_line(ln)] or [-1])
+    first = next((i for i, ln in enumerate(lines) if ln.split()[:1] == ['THERMO'] and not _is_record_line(ln)), None)
+    if last_end < 0 or first is None:
+        return text, cnt
+    start = first + 1 + (1 if lines[first].split()[1:2] == ['ALL'] else 0)
+    out = []
+    for i, ln in enumerate(lines):
+        if start <= i < last_end and not _is_record_line(ln) and not ln.startswith('!'):
+            kind = ('END' if ln.strip() == 'END' else 'THERMO' if ln.split()[:1] == ['THERMO']
+                    else 'temps' if _three_numbers(ln) else None)
+            if kind:
+                cnt[kind] += 1
+                continue
+        out.append(ln)
+    return '\n'.join(out), cnt
+
+
 def expected_of(sp):
     return {'name': sp['name'], 'phase': sp['phase'],
             'elements': {e[0]: int(e[1]) for e in sp['elements'] if e[1] != 0},
@@ -852,12 +1027,14 @@ def expected_of(sp):
 
 
 # ---------------------------------------------------------------- attribution by isolation
-def _roundtrip(sps, write_date, tmp, supp=None, supp_txt=None, supp_comments=None):
+def _roundtrip(sps, write_date, tmp, supp=None, supp_txt=None, supp_comments=None, sspec=None):
     """Outcome of the real writer + reader on exactly these species: 'ok', 'write:<Exc>',
     'read:<Exc>' or 'mismatch' (number of species, names, phases, element counts)."""
     from pmutt.io.thermdat import write_thermdat, read_thermdat
     kw = {}
-    st = supp_text(supp, True, supp_comments)
+    if sspec is None:
+        sspec = {'supp': supp, 'supp_comments': supp_comments}
+    st, sexp = supp_block(sspec)[:2]
     if st:
         kw['supp_data'] = st
     if supp_txt is not None:
@@ -867,7 +1044,7 @@ def _roundtrip(sps, write_date, tmp, supp=None, supp_txt=None, supp_comments=Non
         txt = write_thermdat(objs, filename=None, write_date=write_date, **kw)
     except Exception as e:
         return 'write:' + type(e).__name__
-    n_supp = len(supp or [])
+    n_supp = len(sexp)
     with open(tmp, 'w', newline='') as f:
         f.write(txt)
     try:
@@ -880,6 +1057,10 @@ def _roundtrip(sps, write_date, tmp, supp=None, supp_txt=None, supp_comments=Non
         for b, s in zip(back[n_supp:], sps):
             e = expected_of(s)
             if b.name != e['name'] or b.phase != e['phase'] or dict(b.elements) != e['elements']:
+                return 'mismatch'
+        for b, e in zip(back[:n_supp], sexp):
+            if b.name != e['name'] or b.phase != e['phase'] or dict(b.elements) != e['elements'] or \
+                    _rel_err([float(v) for v in b.a_high], e['a_high']) > A_TOL:
                 return 'mismatch'
     except Exception:
         return 'mismatch'
@@ -943,9 +1124,29 @@ def diagnose_file(spec, tmp, symptom=None):
         for sp in spec['species']:
             if _bad(sp, wd, tmp, sym):
                 return diagnose_species(sp, wd, tmp, sym)
-    one = spec['species'][:1]
+    one = [_anchor(spec['species'][0])]
     if spec.get('supp') and _roundtrip(one, wd, tmp, supp=spec['supp']) != 'ok':
+        # one entry alone, then behind a benign entry
+        for s in spec['supp']:
+            if _roundtrip(one, wd, tmp, supp=[s]) != 'ok':
+                return {'cause': 'supp_data', 'supp_name': supp_name_class(s['name']), 'position': 'first'}
+        for s in spec['supp']:
+            if _roundtrip(one, wd, tmp, supp=[dict(s, name='SUPPA'), s]) != 'ok':
+                return {'cause': 'supp_data', 'supp_name': supp_name_class(s['name']), 'position': 'nonfirst'}
         return {'cause': 'supp_data'}
+    if spec.get('supp') and spec.get('supp_wrap') and _roundtrip(
+            one, wd, tmp, sspec={'supp': spec['supp'], 'supp_wrap': spec['supp_wrap']}) != 'ok':
+        return {'cause': 'supp_data_section_lines', 'kind': 'handmade'}
+    if spec.get('supp_full'):
+        full = spec['supp_full']
+        if _roundtrip(one, wd, tmp, sspec={'supp_full': full}) != 'ok':
+            plain = dict(full, species=[dict(s, name='SF%d' % i) for i, s in enumerate(full['species'])])
+            if _roundtrip(one, wd, tmp, sspec={'supp_full': plain}) != 'ok':
+                return {'cause': 'supp_data_section_lines', 'kind': 'full_thermdat'}
+            return {'cause': 'supp_data', 'kind': 'full_thermdat', 'supp_name': next(
+                (c for c in (supp_name_class(s['name']) for s in full['species']) if c != 'plain'), 'plain')}
+        if _roundtrip(one, wd, tmp, sspec={k: spec.get(k) for k in SUPP_KEYS if k != 'supp_comments'}) != 'ok':
+            return {'cause': 'supp_data_section_lines', 'kind': 'full_thermdat+entries'}
     if spec.get('supp') and spec.get('supp_comments') and _roundtrip(
             one, wd, tmp, supp=spec['supp'], supp_comments=spec['supp_comments']) != 'ok':
         return {'cause': 'supp_data_comments'}
@@ -985,8 +1186,30 @@ def _classes(spec, ctx):
             'date:on' if spec['write_date'] else 'date:off')
     ctx.cls('species:1' if n == 1 else 'species:2-20' if n <= 20 else 'species:21-199' if n < 200
             else 'species:200')
-    if spec.get('supp'):
+    if spec.get('supp') or spec.get('supp_full'):
         ctx.cls('supp_data')
+    full, wrap = spec.get('supp_full'), spec.get('supp_wrap') if spec.get('supp') else None
+    order = [s['name'] for s in (spec.get('supp') or [])]
+    if full:
+        fn = [s['name'] for s in full['species']]
+        order = fn + order if full.get('position', 'before') == 'before' else order + fn
+        ctx.cls('supp_data:full_thermdat', 'supp_data:interior_END', 'supp_data:interior_THERMO',
+                'supp_data:interior_temperature_line',
+                'supp_data:full_thermdat:date:' + ('on' if full['write_date'] else 'off'))
+        if spec.get('supp') and full.get('position', 'before') == 'before':
+            ctx.cls('supp_data:entries_after_interior_END')
+    if wrap:
+        ctx.cls('supp_data:handmade_sections')
+        if wrap.get('end'):
+            ctx.cls('supp_data:interior_END')
+            if full and full.get('position') == 'after':
+                ctx.cls('supp_data:entries_after_interior_END')
+        if wrap.get('header'):
+            ctx.cls('supp_data:interior_THERMO')
+        if wrap.get('header') and wrap.get('temps'):
+            ctx.cls('supp_data:interior_temperature_line')
+    for k, nm in enumerate(order):
+        ctx.cls('supp_name:%s:%s' % (supp_name_class(nm), 'first' if k == 0 else 'nonfirst'))
     st = spec.get('supp_txt')
     if st is not None:
         ctx.cls('supp_txt')
@@ -1333,23 +1556,24 @@ def run_case(spec, ctx):
         telemetry_non_ascii(ctx)
     sps = spec['species']
     n = len(sps)
-    supp = spec.get('supp') or []
-    n_supp = len(supp)
     _classes(spec, ctx)
+    st, exp_supp, part_supp, sps_supp = supp_block(spec)
+    n_supp = len(exp_supp)
+    sectioned = bool(spec.get('supp_full') or (spec.get('supp') and spec.get('supp_wrap')))
     tmp = os.path.join(ctx.tmpdir, 'c05_diag_%s.dat' % (ctx.case_index,))
     diag = _Diag(spec, tmp)
     objs = [build_sp(s) for s in sps]
     coll = {s['name']: o for s, o in zip(sps, objs)} if spec['input'] == 'dict' else list(objs)
     kw = {'write_date': spec['write_date']}
-    st = supp_text(supp, spec.get('supp_newline', True), spec.get('supp_comments'))
     if st:
         kw['supp_data'] = st
     if spec.get('supp_txt') is not None:
         kw['supp_txt'] = spec['supp_txt']
     path = os.path.join(ctx.tmpdir, 'c05_%s.dat' % (ctx.case_index,))
-    expected = [dict(expected_of_supp(s)) for s in supp] + [expected_of(s) for s in sps]
+    expected = [dict(e) for e in exp_supp] + [expected_of(s) for s in sps]
     sp_of = [None] * n_supp + list(sps)
-    part_of = ['supp'] * n_supp + ['species'] * n
+    sp_layout = list(sps_supp) + list(sps)
+    part_of = list(part_supp) + ['species'] * n
 
     # ---- write -------------------------------------------------------------------------
     _PC.clear()
@@ -1395,16 +1619,21 @@ def run_case(spec, ctx):
                 os.remove(other)
 
     # ---- L1 layout / L4 written count ----------------------------------------------------
-    P = rt.parse(text)
+    ptext, sect = strip_sections(text) if sectioned else (text, {'END': 0, 'THERMO': 0, 'temps': 0})
+    for k, v in sect.items():
+        ctx.extra['interior_%s_lines_written' % k] = ctx.extra.get('interior_%s_lines_written' % k, 0) + v
+    P = rt.parse(ptext)
     for rule, info in P.problems:
         ctx.fail('L1', {'rule': rule, 'part': 'file'}, info=info)
     ctx.check('L1', P.header_temps is not None, {'rule': 'header_temps', 'part': 'file'}, head=text[:80])
     ctx.check('L1', '\r' not in text, {'rule': 'newline', 'part': 'file'})
-    aligned = ctx.check('L4', len(P.entries) == n + n_supp, {'what': 'entries_written'},
+    aligned = ctx.check('L4', len(P.entries) == n + n_supp,
+                        dict({'what': 'entries_written'},
+                             **({} if len(P.entries) == n + n_supp or not n_supp else diag.file('silent'))),
                         entries=len(P.entries), species=n, supp=n_supp, record_lines=P.n_record_lines)
     if aligned:
         for i, entry in enumerate(P.entries):
-            check_layout_entry(ctx, entry, expected[i], sp_of[i], part_of[i])
+            check_layout_entry(ctx, entry, expected[i], sp_layout[i], part_of[i])
     ctx.extra['record_lines_written'] = ctx.extra.get('record_lines_written', 0) + P.n_record_lines
     ctx.extra['comment_lines_written'] = ctx.extra.get('comment_lines_written', 0) + P.n_comment
     if aligned and not spec['write_date']:
@@ -1465,6 +1694,8 @@ def run_case(spec, ctx):
         if dropped and dropped[0] in [s['name'] for s in sps]:
             culprit = [s['name'] for s in sps].index(dropped[0])
         feat = diag.species(culprit) if culprit is not None else diag.file('silent')
+        if n_supp and feat.get('cause') == 'context':
+            feat = diag.file('silent')
         cons_feat = feat
         what = 'dropped' if dropped else 'duplicated' if dupl else 'count'
         ctx.fail('L4', dict({'what': what}, **feat), returned=len(vals), entries_in_file=len(P.entries),
@@ -1485,7 +1716,7 @@ def run_case(spec, ctx):
                                       **({} if ok else feat())),
                       classified=seen.get('_read_line_num', 0), written=P.n_record_lines)
         if _present('_is_temperature_header'):
-            ok = seen.get('temp_header:True', 0) == 1
+            ok = seen.get('temp_header:True', 0) == 1 + sect['temps']
             ctx.check('PRB', ok, dict({'probe': '_is_temperature_header', 'what': 'header_lines'},
                                       **({} if ok else feat())), true_returns=seen.get('temp_header:True', 0))
 
